@@ -253,6 +253,7 @@ static int run_one(int PB) {
     (void)PB;
     return 0;
 }
+#define STUCK_ENOUGH() (n_deadlocks >= 20)
 static long sched_this_program;
 static void explore(int *prefix, int nprefix, int PB) {
     memcpy(sc_prefix, prefix, sizeof(int) * nprefix); sc_nprefix = nprefix;
@@ -270,7 +271,7 @@ static void explore(int *prefix, int nprefix, int PB) {
         if (c <= PB) for (int alt = 1; alt < nen[i]; alt++) {
             int *np2 = malloc(sizeof(int) * (i + 1)); memcpy(np2, choice, sizeof(int) * i); np2[i] = alt;
             explore(np2, i + 1, PB); free(np2);
-            if (vc_deadline_hit()) break;
+            if (vc_deadline_hit() || STUCK_ENOUGH()) break;
         }
         /* choice[i] is 0 on the default continuation, so cost is unchanged */
     }
@@ -296,6 +297,7 @@ static void enumerate(int shape, int PB, long shard, long nshards) {
     for (int init = 0; init < CONT.ninit; init++) for (long x = 0; x < tot; x++) {
         if (idx++ % nshards != shard) continue;
         if (vc_deadline_hit()) return;
+        if (STUCK_ENOUGH()) { vc_exhaustive = 0; return; }   /* every stuck execution costs a pool of parked threads: enough counterexamples */
         long y = x; memset(&P, 0, sizeof P); P.nt = nt; P.init = init; P.nop[0] = n0; P.nop[1] = n1; if (nt == 3) P.nop[2] = n2;
         for (int t = 0; t < nt; t++) for (int i = 0; i < P.nop[t]; i++) { P.op[t][i] = y % CONT.nops; y /= CONT.nops; }
         run_program(PB);
